@@ -718,7 +718,7 @@ var benignNames = []string{"file.txt", "report.pdf", "image.png", "a b.dat", "da
 	// printf verbs and URL escapes in ordinary ASCII names
 	"Annual%20Report%202024.pdf", "progress 100%.pdf", "%s%d%v.txt", "100%!(NOVERB).bin"}
 
-var benignDescs = []string{"", "", "", "a description", "Beschreibung mit ü", "desc; with=chars", "x"}
+var benignDescs = []string{"", "", "", "a description", "Beschreibung mit ü", "desc; with=chars", "x", "100% of %s and %d"}
 
 func chunkPlan(t *rapid.T, label string) []int {
 	switch rapid.IntRange(0, 5).Draw(t, label+"-chunkkind") {
